@@ -148,14 +148,14 @@ Theorem C08_variable_factor_refuted :
 Proof. exact (conj witness_variable_factor witness_variable_sleeps). Qed.
 
 (* Total-force coupling (lagged engine forces that include the Colvars forces, subtractAppliedForce on, variable
-   whose total force is the force on one coordinate): whatever forces two sets of biases applied (histories hA,
-   hB with the same system forces), the total force reported at step t+1 is the system force of step t in both
-   runs, provided the force the engine delivers is not exactly zero. *)
+   whose total force is the force on one coordinate; code after the repair "subtractAppliedForce skipped the
+   correction when the measured total force was exactly zero"): whatever forces two sets of biases applied
+   (histories hA, hB with the same system forces), the total force reported at step t+1 is the system force of
+   step t in both runs - also when the force the engine delivers is exactly zero. *)
 Theorem C08_total_force_coupling :
   forall (hA hB : list (R * R)) (t : nat) (sA fA sB fB xA xB : R),
     map fst hA = map fst hB ->
     nth_error hA t = Some (sA, fA) -> nth_error hB t = Some (sB, fB) ->
-    sA + fA <> 0 -> sB + fB <> 0 ->
     nth_error (tf_trace Rops true true None 0 hA) (S t) = Some xA ->
     nth_error (tf_trace Rops true true None 0 hB) (S t) = Some xB ->
     xA = xB /\ xA = sA.
@@ -165,18 +165,10 @@ Print Assumptions C08_total_force_coupling.
 Example C08_total_force_coupling_premises :
   exists (hA hB : list (R * R)) t sA fA sB fB xA xB,
     map fst hA = map fst hB /\ nth_error hA t = Some (sA, fA) /\ nth_error hB t = Some (sB, fB) /\
-    sA + fA <> 0 /\ sB + fB <> 0 /\
+    sA + fA = 0 /\
     nth_error (tf_trace Rops true true None 0 hA) (S t) = Some xA /\
     nth_error (tf_trace Rops true true None 0 hB) (S t) = Some xB.
 Proof. exact total_force_coupling_premises_sat. Qed.
-
-(* FULL STATEMENT without the side condition is false (recorded under C04): with s + f = 0 the applied force is
-   not subtracted. *)
-Theorem C08_total_force_coupling_zero_refuted :
-  exists (h : list (R * R)) s f x,
-    nth_error h 0 = Some (s, f) /\ s + f = 0 /\
-    nth_error (tf_trace Rops true true None 0 h) 1 = Some x /\ x <> s.
-Proof. exact total_force_coupling_zero. Qed.
 
 (* The model's error flag (cvm::error raised by the dependency engine or by add_bias_force; after such an error
    the control flow of the C++ leaves the model) is never set in a run without script events: every carrier,
